@@ -36,6 +36,43 @@ names are equal after ASCII folding; otherwise a strict order on the folded name
 theorem canonicalCompare_eq_iff (a b : Name) : canonicalCompare a b = .eq ↔ foldName a = foldName b :=
   lawful_cmpName.eq_iff _ _
 
+/-- **Only US-ASCII letters are folded** (RFC 4034 §6.1, RFC 4343): `foldByte`
+changes exactly the octets 65..90, so two sibling names whose leaf labels
+start with octets that are not upper-case ASCII letters — in particular any
+octets ≥ 128, the Latin-1 "letters" 0xC0–0xDE / 0xE0–0xFE included — are
+ordered by those octets as they are; and an upper-case ASCII letter is ordered
+as its lower-case form. (What the `foldSweep` ops compare octet by octet with
+`dnsname.CanonicalCompare` / `nsecCovers`.) -/
+theorem canonical_fold_ascii_only :
+    (∀ b, foldByte b = if 65 ≤ b ∧ b ≤ 90 then b + 32 else b) ∧
+    (∀ (p : Name) (a b : Nat) (la lb : Label), ¬(65 ≤ a ∧ a ≤ 90) → ¬(65 ≤ b ∧ b ≤ 90) → a ≠ b →
+      canonicalCompare (p ++ [a :: la]) (p ++ [b :: lb]) = cmpNat a b) ∧
+    (∀ (p : Name) (a : Nat) (la : Label), 65 ≤ a ∧ a ≤ 90 →
+      canonicalCompare (p ++ [a :: la]) (p ++ [(a + 32) :: la]) = .eq) := by
+  refine ⟨fun b => rfl, ?_, ?_⟩
+  · intro p a b la lb ha hb hab
+    unfold canonicalCompare cmpName foldName
+    simp only [List.map_append, List.map_cons, List.map_nil]
+    rw [cmpList_append_left lawful_cmpLabel]
+    have hfa : foldByte a = a := by unfold foldByte; simp [ha]
+    have hfb : foldByte b = b := by unfold foldByte; simp [hb]
+    simp only [foldLabel, List.map_cons, hfa, hfb, cmpList, cmpLabel]
+    unfold cmpNat
+    by_cases hlt : a < b
+    · simp [hlt]
+    · simp [hlt, hab]
+  · intro p a la ha
+    rw [canonicalCompare_eq_iff]
+    unfold foldName foldLabel
+    simp only [List.map_append, List.map_cons, List.map_nil]
+    have h1 : foldByte a = a + 32 := by unfold foldByte; simp [ha]
+    have h2 : foldByte (a + 32) = a + 32 := by unfold foldByte; have := ha.1; simp; omega
+    rw [h1, h2]
+
+-- 0xC8 sorts BEFORE 0xE6 (it is not "folded" to 0xE8 and so into the span 0xE6..0xFA)
+example : canonicalCompare [[122], [200]] [[122], [230]] = .lt ∧ nsecCovers [[122], [230]] [[122], [250]] [[122], [200]] = false := by
+  decide
+
 /-- **Names sharing an ancestor form an order-convex block**: if `p` is an
 ancestor-or-self of `a` and of `d`, every name canonically between them is
 below `p` too. -/
@@ -862,6 +899,237 @@ example : cutRecorded
     { reqCD := false, respCD := false, ecs := false, hasScope := false, marked := true,
       copied := false, kind := 2, agg := true, fam := 2, nx := true, optout := true } = false := by decide
 example : (authority .nsec3 (.ok true) (.ok .nxdomain) true false).aggressive = true := by decide
+
+/-! ### `Resolver.authority` end to end (`authorityStep`, compared line by line with the real function: `z auth`, `h auth`) -/
+
+open SdnsVerif.Model.Nsec3 SdnsVerif.Lemmas.Nsec3
+
+/-- **An unproven denial is never passed on.**  For every negative response
+from a signed zone (any records, any hash, any question), a request with
+CD = 0, a zone the resolver holds a DS for, and a question type other than RRSIG: if `Resolver.authority` does not
+fail, then the section named a signer, the question lies in the signer's zone,
+every in-zone RRset verified, and the exact validator `authority` picks for the
+records (NSEC3 if any in-zone NSEC3 is present, else NSEC; none at all is an
+error) ACCEPTED the proof.  There is no "treat as insecure" exit. -/
+theorem authority_passes_only_proven (H : HashFn) (i : AuthIn)
+    (hcd : i.reqCD = false) (hds : i.haveDS = true) (ht : i.t ≠ 46) (h : (authorityStep H i).servfail = false) :
+    i.signed = true ∧ nameInZone i.q i.signer = true ∧ i.sigsGood = true ∧
+    ∃ secure, authExact H i = .ok secure ∧ (authorityStep H i).ad = secure ∧ (authorityStep H i).marked = secure := by
+  unfold authorityStep at h ⊢
+  simp only [hcd, Bool.false_eq_true, ↓reduceIte] at h ⊢
+  cases hs : i.signed <;> simp only [hs, hds, Bool.not_true, Bool.not_false, Bool.false_eq_true, ↓reduceIte] at h ⊢
+  · simp [authServfail] at h
+  cases hz : nameInZone i.q i.signer <;> simp only [hz, Bool.not_true, Bool.not_false, Bool.false_eq_true, ↓reduceIte] at h ⊢
+  · simp [authServfail] at h
+  simp only [ht, ↓reduceIte] at h ⊢
+  cases hg : i.sigsGood <;> simp only [hg, Bool.not_true, Bool.not_false, Bool.false_eq_true, ↓reduceIte] at h ⊢
+  · simp [authServfail] at h
+  cases he : authExact H i with
+  | error e => rw [he] at h; simp [authority] at h
+  | ok b => exact ⟨trivial, trivial, trivial, b, rfl, by simp [authority], by simp [authority]⟩
+
+/-- AD, provenance and `Aggressive` are downstream of the exact proof: AD = the
+proof is secure; provenance exactly when AD; `Aggressive` only with provenance
+and only when the RFC 8198 evaluator reaches the response's own verdict. -/
+theorem authority_ad_needs_secure_proof (H : HashFn) (i : AuthIn) :
+    let o := authorityStep H i
+    (o.ad = true → i.reqCD = false ∧ i.haveDS = true ∧ i.t ≠ 46 ∧ i.sigsGood = true ∧ authExact H i = .ok true) ∧
+    (o.marked = o.ad) ∧
+    (o.aggressive = true → o.marked = true ∧
+      ∃ rc, authAgg H i = .ok rc ∧ ((rc == Rcode.nxdomain) == i.nx) = true) := by
+  unfold authorityStep
+  cases hcd : i.reqCD <;> simp only [Bool.false_eq_true, ↓reduceIte]
+  · cases hs : i.signed <;> simp only [Bool.not_true, Bool.not_false, Bool.false_eq_true, ↓reduceIte]
+    · cases i.haveDS <;> simp [authServfail, authPassed]
+    cases hz : nameInZone i.q i.signer <;> simp only [Bool.not_true, Bool.not_false, Bool.false_eq_true, ↓reduceIte]
+    · simp [authServfail]
+    cases hds : i.haveDS <;> simp only [Bool.not_true, Bool.not_false, Bool.false_eq_true, ↓reduceIte]
+    · simp [authPassed]
+    by_cases ht : i.t = 46
+    · simp [ht, authPassed]
+    simp only [ht, ↓reduceIte]
+    cases hg : i.sigsGood <;> simp only [Bool.not_true, Bool.not_false, Bool.false_eq_true, ↓reduceIte]
+    · simp [authServfail]
+    cases he : authExact H i with
+    | error e => simp [authority]
+    | ok b =>
+      cases b
+      · simp [authority]
+      · refine ⟨fun _ => ⟨trivial, trivial, ht, trivial, rfl⟩, by simp [authority], ?_⟩
+        intro ha
+        refine ⟨by simp [authority], ?_⟩
+        cases hagg : authAgg H i with
+        | error e => rw [hagg] at ha; cases authFamily i <;> simp [authority] at ha
+        | ok rc => rw [hagg] at ha; refine ⟨rc, rfl, ?_⟩; simp [authority] at ha; simpa using ha.2
+  · simp [authPassed]
+
+/-- **NSEC3 records the validator declines to hash with prove nothing** (RFC 5155
+§10.3 / RFC 9276: iterations above the ceiling, unknown hash algorithm, unknown
+flags): when every in-zone NSEC3 record of the response is unusable, the
+response is refused — never downgraded to "insecure" and passed on. -/
+theorem authority_unusable_nsec3_refused (H : HashFn) (i : AuthIn)
+    (hcd : i.reqCD = false) (hds : i.haveDS = true) (ht : i.t ≠ 46)
+    (hne : (authNsec3Set i).isEmpty = false) (hun : ∀ r ∈ authNsec3Set i, usable r = false) :
+    (authorityStep H i).servfail = true := by
+  have hf : (authNsec3Set i).filter usable = [] := by
+    apply List.filter_eq_nil_iff.mpr
+    intro r hr; simp [hun r hr]
+  have hp : prepare (authNsec3Set i) i.signer = .error .missing := by
+    unfold prepare; rw [hf]; rfl
+  have hex : ∃ e, authExact H i = .error e := by
+    unfold authExact
+    simp only [hne, Bool.not_false, ↓reduceIte]
+    cases i.nx
+    · simp only [Bool.false_eq_true, ↓reduceIte]; unfold verifyNODATA; rw [hp]; exact ⟨_, rfl⟩
+    · simp only [↓reduceIte]; unfold verifyNameError; rw [hp]; exact ⟨_, rfl⟩
+  obtain ⟨e, he⟩ := hex
+  unfold authorityStep
+  simp only [hcd, Bool.false_eq_true, ↓reduceIte]
+  cases i.signed <;> simp only [hds, Bool.not_true, Bool.not_false, Bool.false_eq_true, ↓reduceIte]
+  · rfl
+  cases nameInZone i.q i.signer <;> simp only [Bool.not_true, Bool.not_false, Bool.false_eq_true, ↓reduceIte]
+  · rfl
+  simp only [ht, ↓reduceIte]
+  cases i.sigsGood <;> simp only [Bool.not_true, Bool.not_false, Bool.false_eq_true, ↓reduceIte]
+  · rfl
+  rw [he]; simp [authority]
+
+/-- no denial record of the signer zone at all: refused (`ErrNSECMissingCoverage`). -/
+theorem authority_without_denial_records_refused (H : HashFn) (i : AuthIn)
+    (hcd : i.reqCD = false) (hds : i.haveDS = true) (ht : i.t ≠ 46)
+    (h3 : (authNsec3Set i).isEmpty = true) (h1 : (authNsecSet i).isEmpty = true) :
+    (authorityStep H i).servfail = true := by
+  have he : authExact H i = .error .missing := by
+    unfold authExact; simp [h3, h1]
+  unfold authorityStep
+  simp only [hcd, Bool.false_eq_true, ↓reduceIte]
+  cases i.signed <;> simp only [hds, Bool.not_true, Bool.not_false, Bool.false_eq_true, ↓reduceIte]
+  · rfl
+  cases nameInZone i.q i.signer <;> simp only [Bool.not_true, Bool.not_false, Bool.false_eq_true, ↓reduceIte]
+  · rfl
+  simp only [ht, ↓reduceIte]
+  cases i.sigsGood <;> simp only [Bool.not_true, Bool.not_false, Bool.false_eq_true, ↓reduceIte]
+  · rfl
+  rw [he]; simp [authority]
+
+/-- **End to end, NSEC.**  A well-formed NSEC-signed zone `z` (the root zone
+under the side condition of `nameError_nsec_sound`), a response whose NSEC
+records are any selection of the zone's genuine chain plus records outside the
+zone, no NSEC3 record of the zone in it, validated under the zone's apex as
+signer, request CD = 0, question type not RRSIG: if `Resolver.authority` passes
+the response on at all, the zone's own answer to the question is the denial
+the response claims — NXDOMAIN for RCODE 3, NODATA for an empty NOERROR. -/
+theorem authority_nsec_end_to_end (H : HashFn) (z : Zone) (hz : z.WF)
+    (hroot : z.apex = [] → z.inTree [star] = false) (i : AuthIn)
+    (hsig : i.signer = z.apex) (hs : SetOK z i.nsec) (h3 : (authNsec3Set i).isEmpty = true)
+    (hcd : i.reqCD = false) (hds : i.haveDS = true) (ht : i.t ≠ 46) (h : (authorityStep H i).servfail = false) :
+    z.answerClass i.q i.t = (if i.nx then .nxdomain else .nodata) := by
+  obtain ⟨_, hq, _, b, hb, _, _⟩ := authority_passes_only_proven H i hcd hds ht h
+  have hq' : z.apex <+: i.q := by
+    rw [← hsig]; exact List.isPrefixOf_iff_prefix.mp (by simpa [nameInZone] using hq)
+  unfold authExact at hb
+  simp only [h3, Bool.not_true, Bool.false_eq_true, ↓reduceIte] at hb
+  by_cases hn : (authNsecSet i).isEmpty = true
+  · simp [hn] at hb
+  simp only [hn, Bool.not_false, ↓reduceIte] at hb
+  unfold authNsecSet at hb
+  rw [hsig] at hb
+  cases hnx : i.nx <;> simp only [hnx, Bool.false_eq_true, ↓reduceIte] at hb ⊢
+  · cases hv : verifyNODATANSEC i.q i.t (filterToZone z.apex i.nsec) with
+    | error e => rw [hv] at hb; cases hb
+    | ok u => cases u; exact nodata_nsec_sound z hz i.nsec hs i.q hq' i.t hv
+  · cases hv : verifyNameErrorNSEC i.q (filterToZone z.apex i.nsec) with
+    | error e => rw [hv] at hb; cases hb
+    | ok u => cases u; exact nameError_nsec_sound z hz hroot i.nsec hs i.q hq' i.t hv
+
+/-- **End to end, NSEC3 NXDOMAIN.**  An NSEC3-signed zone (`names`: its tree,
+closed under ancestors down to the signer; ring = the sorted hashes under any
+hash that does not collide on those names), a response whose NSEC3 records are
+any selection of that ring and that carries no NSEC record: if
+`Resolver.authority` sets AD on an NXDOMAIN, the question name is not in the
+zone's tree — whatever the request, the signatures' state or the question
+type were (AD is only ever set on the validated path). -/
+theorem authority_nsec3_nxdomain_end_to_end (names : List Name) (H : Name → Hash)
+    (hd : (names.map H).Pairwise (· ≠ ·)) (i : AuthIn)
+    (hrec : ∀ r ∈ i.nsec3, FromRing names H r) (hnsec : i.nsec = [])
+    (hclosed : ∀ n ∈ names, ∀ j, i.signer.length ≤ j → j ≤ n.length → n.take j ∈ names)
+    (hnx : i.nx = true) (had : (authorityStep (fun n => some (H n)) i).ad = true) : i.q ∉ names := by
+  obtain ⟨_, _, _, _, hex⟩ := (authority_ad_needs_secure_proof (fun n => some (H n)) i).1 had
+  unfold authExact at hex
+  have hrec' : ∀ r ∈ authNsec3Set i, FromRing names H r := by
+    intro r hr; unfold authNsec3Set at hr; exact hrec r (List.mem_filter.mp hr).1
+  by_cases he : (authNsec3Set i).isEmpty = true
+  · have : (authNsecSet i).isEmpty = true := by unfold authNsecSet filterToZone; simp [hnsec]
+    simp [he, this] at hex
+  · simp only [he, Bool.not_false, ↓reduceIte, hnx] at hex
+    exact (nsec3_nxdomain_sound_sorted_ring names H hd (authNsec3Set i) hrec' i.signer i.q i.t 1 hclosed).1 hex
+
+-- non-vacuity of `authority_nsec3_nxdomain_end_to_end`: the toy one-name zone, `a.z.` denied with AD
+def toyAuth : AuthIn :=
+  { signer := [L "z"], q := [L "z", L "a"], t := 1, nx := true, reqCD := false, haveDS := true, signed := true, sigsGood := true,
+    nsec := [], nsec3 := [toyRec] }
+example : authorityStep (fun n => some (toyH n)) toyAuth
+    = { servfail := false, ad := true, marked := true, aggressive := true } := by decide
+example : toyAuth.q ∉ [[L "z"]] :=
+  authority_nsec3_nxdomain_end_to_end [[L "z"]] toyH (by decide) toyAuth
+    (fun r hr => by
+      simp only [toyAuth, List.mem_singleton] at hr; subst hr
+      exact ⟨{ owner := [[1]], next := [[1]], cls := 1, types := [] }, by decide, [1], [1], rfl, rfl, rfl, rfl⟩)
+    rfl
+    (by
+      intro n hn j h1 h2
+      rw [List.mem_singleton] at hn; subst hn
+      have : j = 1 := by simp [toyAuth] at h1 h2; omega
+      subst this; simp)
+    rfl (by decide)
+
+-- non-vacuity of `authority_nsec_end_to_end`: the full chain of `wzone` carries `b.example. A` NXDOMAIN through
+-- `authorityStep`, and the theorem returns the zone's own verdict
+def wAuth : AuthIn :=
+  { signer := wzone.apex, q := [L "example", L "b"], t := 1, nx := true, reqCD := false, haveDS := true, signed := true, sigsGood := true,
+    nsec := wzone.chain, nsec3 := [] }
+example : authorityStep (fun _ => none) wAuth = { servfail := false, ad := true, marked := true, aggressive := true } := by
+  decide
+example : wzone.answerClass [L "example", L "b"] 1 = .nxdomain :=
+  authority_nsec_end_to_end (fun _ => none) wzone wzone_wf (by decide) wAuth rfl wzone_chain_ok (by decide) rfl rfl
+    (by decide) (by decide)
+
+/-- **From the upstream response to shared state.**  Whatever the response, the
+hash and the cache-side guard bits are: a denial proof or an RFC 8020 subtree
+cut is recorded from a response `Resolver.authority` handed on only if that
+response came from a zone the resolver holds a DS for, every in-zone RRset
+verified, the exact validator accepted the proof as SECURE (no Opt-Out span),
+and the RFC 8198 evaluator reached the response's own verdict on the same
+records. (`authorityStep` composed with `admission_guard`.) -/
+theorem shared_state_needs_proven_denial (H : HashFn) (i : AuthIn) (respCD ecs hasScope copied optout : Bool)
+    (h : proofRecorded (pipelineWrite H i respCD ecs hasScope copied optout) = true ∨
+         cutRecorded (pipelineWrite H i respCD ecs hasScope copied optout) = true) :
+    i.reqCD = false ∧ i.haveDS = true ∧ i.t ≠ 46 ∧ i.sigsGood = true ∧ authExact H i = .ok true ∧
+    ∃ rc, authAgg H i = .ok rc ∧ ((rc == Rcode.nxdomain) == i.nx) = true := by
+  obtain ⟨hm, _, ha, _⟩ := admission_guard _ h
+  have hm' : (authorityStep H i).marked = true := hm
+  have ha' : (authorityStep H i).aggressive = true := ha
+  obtain ⟨h1, h2, h3⟩ := authority_ad_needs_secure_proof H i
+  obtain ⟨hcd, hds, ht, hg, hex⟩ := h1 (by rw [← h2]; exact hm')
+  exact ⟨hcd, hds, ht, hg, hex, (h3 ha').2⟩
+
+example : proofRecorded (pipelineWrite (fun n => some (toyH n)) toyAuth false false false false false) = true := by decide
+
+-- non-vacuity: a proven NXDOMAIN is passed on with AD, provenance and `Aggressive`;
+-- the same records without signatures, or for an RRSIG question, are not
+example : authorityStep (fun _ => none)
+    { signer := [[101]], q := [[101], [98]], t := 1, nx := true, reqCD := false, haveDS := true, signed := true, sigsGood := true,
+      nsec := [{ owner := [[101]], next := [[101], [99]], types := [2, 6, 46, 47] },
+               { owner := [[101], [99]], next := [[101]], types := [1, 46, 47] }], nsec3 := [] }
+    = { servfail := false, ad := true, marked := true, aggressive := true } := by decide
+example : (authorityStep (fun _ => none)
+    { signer := [[101]], q := [[101], [98]], t := 1, nx := true, reqCD := false, haveDS := true, signed := true, sigsGood := false,
+      nsec := [{ owner := [[101]], next := [[101], [99]], types := [2, 6, 46, 47] }], nsec3 := [] }).servfail = true := by decide
+-- all NSEC3 records above the iteration ceiling: refused
+example : (authorityStep (fun _ => none)
+    { signer := [[101]], q := [[101], [98]], t := 1, nx := true, reqCD := false, haveDS := true, signed := true, sigsGood := true, nsec := [],
+      nsec3 := [{ owner := [[101], [1]], ownerHash := some [1], next := some [2], hashLen := 1, alg := 1, flags := 0,
+                  iter := 200, salt := some [], cls := 1, types := [] }] }).servfail = true := by decide
 
 end admission
 
